@@ -322,11 +322,44 @@ def nonminimal_divmod(rng):
     return f'push d100 {op} x{enc.hex()}'
 
 
+def deep_source(rng, depth: int) -> str:
+    """a source nested `depth` blocks deep (an else-if dispatcher has no
+    other way to be written): the compiler sets no limit on that, so its
+    output for it has to list and round-trip as well"""
+    src = 'true'
+    for k in range(depth):
+        w = rng.choice(('if', 'else', 'try', 'except', 'loop'))
+        if w == 'if':
+            src = f'true if {{ {src} }}'
+        elif w == 'else':
+            src = f'false if {{ false }} else {{ {src} }}'
+        elif w == 'try':
+            src = f'try {{ {src} }} except {{ false }}'
+        elif w == 'except':
+            src = f'try {{ false verify }} except {{ {src} }}'
+        else:
+            src = f'true loop {{ pop0 {src} false }}'
+    return src
+
+
 def run_shard(spec, ctx):
     functions, parsing, tools, _, _ = env.mods()
     i, of = spec['shard'], spec['of']
     tier = ctx.tier
     rng = ctx.rng('main')
+    # ---- deep nesting (depths around every power of two up to 128)
+    for k, depth in enumerate((7, 8, 9, 15, 16, 17, 31, 32, 33, 40, 63, 64,
+                               65, 100, 127, 128)):
+        if k % of != i:
+            continue
+        src = deep_source(ctx.rng(('deep', depth)), depth)
+        try:
+            code = parsing.compile_script(src)
+        except BaseException:
+            ctx.count('deep_nesting_source_rejected')
+            continue
+        ctx.count('deep_nesting_roundtrips')
+        judge_roundtrip(ctx, code, f'compile_script[deep:{depth}]', src)
     # ---- (a) exhaustive short strings
     maxlen = 2 if tier == 'quick' else 3
     if i == 0:
